@@ -39,6 +39,10 @@ type vcase struct {
 	Procs  int     `json:"procs"`  // GOMAXPROCS while the concurrent callers run (0 = unchanged)
 	Keys   string  `json:"keys"`   // obf: "one" station key pair for the batch | "each" item its own
 	Shared bool    `json:"shared"` // the caller reuses ONE input buffer for every call (sequential only)
+	// stream / damage
+	Key string `json:"key"`
+	IV  string `json:"iv"`
+	Pos int    `json:"pos"` // damage: index of the bit to flip in the encoding
 }
 
 // typed view of the transport-parameter messages; nil pointers = field absent
@@ -493,6 +497,39 @@ func runCase(c vcase) (r vres) {
 	switch c.Op {
 	case "batch":
 		batch(c, &r)
+	case "stream": // the AES helpers of obfuscate.go on a message and on as many zeros (= the keystream)
+		key, _ := hex.DecodeString(c.Key)
+		iv, _ := hex.DecodeString(c.IV)
+		zeros := make([]byte, len(d))
+		o1, err := aesCTR(d, key, iv)
+		r.Ok, r.Err = err == nil, errStr(err)
+		r.Out = hex.EncodeToString(o1)
+		k1, _ := aesCTR(zeros, key, iv)
+		r.Out1b = hex.EncodeToString(k1)
+		o2, err2 := aesGcmEncrypt(d, key, iv[:12])
+		r.Ok2, r.Err2 = err2 == nil, errStr(err2)
+		r.Out2 = hex.EncodeToString(o2)
+		k2, _ := aesGcmEncrypt(zeros, key, iv[:12])
+		r.Snap = hex.EncodeToString(k2)
+	case "damage": // obfuscate, flip one bit of the encoding, reveal
+		o := obfuscator(c.Variant)
+		priv, pub := freshKeyPair()
+		c1, err := o.Obfuscate(d, pub)
+		r.Ok, r.Err = err == nil, errStr(err)
+		r.Out = hex.EncodeToString(c1)
+		if err != nil || len(c1) == 0 {
+			return
+		}
+		bit := c.Pos % (8 * len(c1))
+		if bit < 0 {
+			bit += 8 * len(c1)
+		}
+		c2 := append([]byte(nil), c1...)
+		c2[bit/8] ^= 1 << uint(bit%8)
+		r.Out1b = hex.EncodeToString(c2)
+		t, err2 := o.TryReveal(c2, priv)
+		r.Ok2, r.Err2 = err2 == nil, errStr(err2)
+		r.Out2 = hex.EncodeToString(t)
 	case "obf": // two encodings of the same tag under a fresh key pair; reveal the first
 		o := obfuscator(c.Variant)
 		priv, pub := freshKeyPair()
